@@ -34,6 +34,24 @@ def run(ctx: RuleContext):
     ctx.sub(check_builder, ctx)
     ctx.sub(check_identifier_form, ctx)
     ctx.sub(check_mode_table, ctx)
+    ctx.reuse("C09.5", check_failed_check_binds_no_structure, ctx)
+
+
+def check_failed_check_binds_no_structure(ctx):
+    """C09.5: 'binds T on first use and afterwards accepts only identical structures' presupposes
+    that a check that *fails* (or raises) binds nothing: a structure name left behind by a rejected tree
+    makes later, valid trees be rejected.  Decided by the rollback typestate of the PyTree check (C04.1/
+    C04.2 for that site) and the restore rule (C04.4)."""
+    from ..roles import roles_for
+    from . import c04, c05
+
+    r = roles_for(ctx.model)
+    sites = [s_ for s_ in c04.find_sites(ctx, r) if s_.fn.module.short == "_pytree_type"]
+    need(sites, "C09.5: the rollback site of the PyTree check was not found")
+    for s_ in sites:
+        c04.check_site(ctx, r, s_)
+    stack_tl, stack_attr, _ = c05.locate_stack(r)
+    c05._check_set(ctx, r, r.set, stack_tl, stack_attr, "C09.5")
 
 
 def _check_fn(ctx):
@@ -383,6 +401,15 @@ def check_mode_table(ctx):
     if not (ok_pre and ok_suf and ok_exact) or extra:
         raise AnalysisError(f"C09.4: the composite-structure check has rejection paths the rule does not know (prefix {len(pre)}, suffix {len(suf)}, exact {len(exact)}, elsewhere {len(extra)}): "
                             "whether an additional early rejection is sound depends on tree values and cannot be decided statically")
+    # suffix mode delegates "the bottom layer consists of copies of T" to jax: flatten the tree with
+    # `is_leaf = has the structure T` and require every piece to have it.  A hand-written traversal (e.g. over
+    # PyTreeDef.children()) decides what a node / an empty container is on its own: value-level, no verdict.
+    suf_body = c.orelse[0].body if (len(c.orelse) == 1 and isinstance(c.orelse[0], ast.If)) else []
+    delegated = [x for b_ in suf_body for x in ast.walk(b_) if isinstance(x, ast.Call) and norm(x.func).split(".")[-1] in ("tree_leaves", "tree_flatten")
+                 and any(k.arg == "is_leaf" for k in x.keywords)]
+    if not delegated:
+        raise AnalysisError("C09.4: the suffix ('... T') comparison does not flatten the tree with jax's tree_leaves(..., is_leaf=<has structure T>); "
+                            "a hand-written traversal of the tree structure cannot be judged statically")
     ex_if = [x for x in ast.walk(c) if isinstance(x, ast.If) and any(y is exact[0] for y in x.body)]
     if not any(norm(x.test) in ("structure != named_structure", "named_structure != structure") for x in ex_if):
         ctx.bad("C09.4", f, exact[0], "exact mode does not reject exactly when the tree's structure differs from the composed structure")
